@@ -23,7 +23,40 @@ py_eval = z3.Function("py_eval", V, V)
 py_eval_ok = z3.Function("py_eval_ok", V, BoolS)
 
 
+py_eq_obj = z3.Function("py_eq_objects", V, V, BoolS)     # a == b on user objects / references: whatever their __eq__ says
+py_has_attr = z3.Function("py_hasattr", V, V, BoolS)
+py_get_attr = z3.Function("py_getattr", V, V, V)
+
+
 class TasksEngine(Engine):
+    def py_eq(self, a, b, cx):
+        if isinstance(a, PyObj) and isinstance(b, PyObj) and not getattr(a, "is_key", False):
+            # `==` between two objects is their __eq__ (references compare their PRINTED FORM): reflexive, otherwise unknown.
+            # (membership / lookup in dicts and sets is modelled on the abstract key and does not go through here)
+            return z3.Or(a.t == b.t, py_eq_obj(a.t, b.t))
+        return super().py_eq(a, b, cx)
+
+    def builtin_getattr(self, e, cx):
+        """getattr(obj, "name"[, default]) on an opaque object"""
+        if len(e.args) not in (2, 3) or not isinstance(e.args[1], ast.Constant) or not isinstance(e.args[1].value, str):
+            raise Unsupported("getattr form")
+        obj = self.eval(e.args[0], cx)
+        if not isinstance(obj, PyObj):
+            raise Unsupported("getattr on " + type(obj).__name__)
+        name = e.args[1].value
+        f = self.reg.field(obj.cls, name) if obj.cls else None
+        val = f.read(obj, cx).t if f is not None else py_get_attr(obj.t, str_term(name))
+        has = py_has_attr(obj.t, str_term(name))
+        if len(e.args) == 2:
+            cx.raise_if(z3.Not(has), "AttributeError")
+            return PyObj(val)
+        dflt = self.eval(e.args[2], cx)
+        if isinstance(dflt, PyNone):
+            return PyObj(z3.If(has, val, none_term()))
+        if isinstance(dflt, PyObj):
+            return PyObj(z3.If(has, val, dflt.t))
+        raise Unsupported("getattr default")
+
     def isinstance_hook(self, v, clsnode, cx):
         if isinstance(clsnode, ast.Name) and clsnode.id == "BaseRef" and isinstance(v, PyObj):
             return PyBool(is_ref(v.t))
@@ -38,7 +71,7 @@ class TasksEngine(Engine):
         for v in e.values:
             self.eval(v, cx)
         if not e.keys:
-            return PyObj(z3.Const("py_empty_dict", V))
+            return PyMap.empty()
         return PyObj(FreshConst(V, "dictlit"))
 
     def builtin_defaultdict(self, e, cx):
